@@ -45,15 +45,18 @@ Fixpoint env_rebuild (old : list string) (m : list (string * (string * string)))
   match old with
   | [] => (acc, m)
   | e :: r =>
-      match cut "="%char e with
-      | (_, None) => env_rebuild r m acc                      (* no '=': the entry is dropped *)
-      | (k, Some v) =>
-          match alookup k m with
-          | Some x =>
-              let m' := aremove k m in
-              if marked (fst x) then env_rebuild r m' acc
-              else env_rebuild r m' (add_process_env (fst x) (snd x) acc)
-          | None => env_rebuild r m (add_process_env k v acc)
+      let '(k, ov) := cut "="%char e in
+      match alookup k m with
+      | Some x =>
+          let m' := aremove k m in
+          if marked (fst x) then env_rebuild r m' acc
+          else env_rebuild r m' (add_process_env (fst x) (snd x) acc)
+      | None =>
+          match ov with
+          | Some v => env_rebuild r m (add_process_env k v acc)
+          (* no '=' and not named by the adjustment: appended as it is, outside the key cache (no name is
+             ever "", so the entry is never replaced) *)
+          | None => env_rebuild r m (acc ++ [("", e)])
           end
       end
   end.
